@@ -62,6 +62,8 @@ type Flags struct {
 	ClientOnly    bool   `json:"client_only,omitempty"`
 	TakeOwnership bool   `json:"take_ownership,omitempty"`
 	Version       int    `json:"version,omitempty"`
+	// WaitForJobs selects the WaitWithJobs branch of the readiness wait (same effect in the model: one KWait)
+	WaitForJobs bool `json:"wait_for_jobs,omitempty"`
 }
 
 func (f Flags) IsDry() bool {
@@ -606,20 +608,21 @@ func (r *Runner) RunOp(op *Op) (so StepObs) {
 				a := action.NewInstall(cfg)
 				a.ReleaseName, a.Namespace = RelName, RelNS
 				a.Atomic, a.Replace, a.DisableHooks, a.DryRun, a.DryRunOption = f.Atomic, f.Replace, f.NoHooks, f.DryRun, f.DryRunOption
-				a.ClientOnly, a.TakeOwnership = f.ClientOnly, f.TakeOwnership
+				a.ClientOnly, a.TakeOwnership, a.WaitForJobs = f.ClientOnly, f.TakeOwnership, f.WaitForJobs
 				a.Timeout, a.WaitStrategy = time.Second, kube.HookOnlyStrategy
 				_, err = a.Run(ch, vals)
 			} else {
 				a := action.NewUpgrade(cfg)
 				a.Namespace = RelNS
 				a.Atomic, a.CleanupOnFail, a.DisableHooks, a.DryRun, a.DryRunOption = f.Atomic, f.Cleanup, f.NoHooks, f.DryRun, f.DryRunOption
-				a.MaxHistory, a.TakeOwnership = f.MaxHistory, f.TakeOwnership
+				a.MaxHistory, a.TakeOwnership, a.WaitForJobs = f.MaxHistory, f.TakeOwnership, f.WaitForJobs
 				a.Timeout, a.WaitStrategy = time.Second, kube.HookOnlyStrategy
 				_, err = a.Run(RelName, ch, vals)
 			}
 		case "rollback":
 			a := action.NewRollback(cfg)
 			a.Version, a.CleanupOnFail, a.DisableHooks, a.DryRun, a.MaxHistory = f.Version, f.Cleanup, f.NoHooks, f.IsDry(), f.MaxHistory
+			a.WaitForJobs = f.WaitForJobs
 			a.Timeout, a.WaitStrategy = time.Second, kube.HookOnlyStrategy
 			err = a.Run(RelName)
 		case "uninstall":
